@@ -1,4 +1,5 @@
 import HdVerif.Proofs.SRItems
+import HdVerif.Proofs.SRItemsTie
 /-! # C13  SR content items keep their values and parse back to the same type
 
 Property theorems only.  They are about `Model/SRItems.lean`, whose parsing side runs on the tables and
@@ -740,6 +741,38 @@ theorem name_mandatory_classes :
     ∀ c ∈ [Cls.text, .num, .code, .datetime, .date, .time, .uidref, .pname, .container],
       Gen.srOptionalNameClasses.contains c.pyName = false := by decide
 
+/-! ## Bridges: hand-written accessors/constructors use the expressions of the current source (`Generated/T13v.lean`) -/
+
+/-- **NUM tie**: the model's `numValue` tries the attributes in the order regenerated from the `try`/`except` of
+`NumContentItem.value`, and `mkNum` writes `FloatingPointValue` under the regenerated guard of the constructor -/
+theorem tie_num_read_order_and_float_guard :
+    (∀ it : Item, numValue it =
+      (match it.attrs.lookup "MeasuredValueSequence" with
+       | some (.measured num fp _) => SRItemsTie.numReadGen num fp
+       | _ => none)) ∧
+    (∀ (ds : Rat → Rat) (name : Coded) (value : Rat) (isFloat : Bool) (unit : Coded) (qualifier : Option Coded)
+       (rel : Option String),
+      mkNum ds name value isFloat unit qualifier rel =
+        withAttrs .num name rel
+          ([("MeasuredValueSequence",
+              .measured (ds value) (if Gen.numWritesFloat isFloat = .ok true then some value else none) unit)] ++
+           (match qualifier with
+            | none => []
+            | some q => [("NumericValueQualifierCodeSequence", .code q)]))) :=
+  ⟨SRItemsTie.numValue_order, SRItemsTie.mkNum_float_guard⟩
+
+/-- **WAVEFORM tie**: the model's pairing of the channel list is the comprehension of
+`referenced_waveform_channels` with the regenerated `range` arguments and element indices -/
+theorem tie_waveform_channel_pairing (l : List Int) : SRItemsTie.pairUpGen l = .ok (pairUp l) :=
+  SRItemsTie.pairUp_eq_gen l
+
+/-- **SCOORD / SCOORD3D tie**: the model's accessors cut `GraphicData` into rows of the widths regenerated from
+`reshape(-1, …)` in the two `value` properties -/
+theorem tie_reshape_widths (it : Item) :
+    scoordValue it = (graphicData it).map (fun l => chunk Gen.scoordReshapeWidth l.length l) ∧
+    scoord3dValue it = (graphicData it).map (fun l => chunk Gen.scoord3dReshapeWidth l.length l) :=
+  ⟨SRItemsTie.scoordValue_width it, SRItemsTie.scoord3dValue_width it⟩
+
 /-! ## Non-vacuity: concrete items built by the model's constructors -/
 
 private def nm : Coded := { value := "121071", scheme := "DCM", meaning := "Finding", version := none }
@@ -764,5 +797,12 @@ example : ∀ it, mkScoord3d id nm "POLYGON" ⟨3, [[0, 0, 0], [1, 0, 0], [1, 1,
   open_polygon_rejected id nm _ _ _ _ (by decide +kernel)
 example : coplanar [[0, 0, 0], [1, 0, 0], [0, 1, 0], [0, 0, 1], [0, 0, 0]] = false := by decide +kernel
 example : coplanar poly.rows = true := by decide +kernel
+/-- the bridges on concrete data: a float and its 16-character decimal string differ and the float wins; three
+channel pairs; three 2-D points -/
+example : SRItemsTie.numReadGen (33/100) (some (1/3)) = some (1/3) ∧ SRItemsTie.numReadGen (33/100) none = some (33/100) := by
+  decide +kernel
+example : SRItemsTie.pairUpGen [1, 2, 1, 3, 4, 1] = .ok [(1, 2), (1, 3), (4, 1)] := by decide +kernel
+example : chunk Gen.scoordReshapeWidth 6 [1, 2, 3, 4, 5, 6] = [[1, 2], [3, 4], [5, 6]] ∧
+    chunk Gen.scoord3dReshapeWidth 6 [1, 2, 3, 4, 5, 6] = [[1, 2, 3], [4, 5, 6]] := by decide +kernel
 
 end HdVerif.C13
